@@ -61,6 +61,17 @@ def body_copyStash_exec : List String := ["oldStash := vm.stash", "newStash := &
 def deleteVarGuards : List String := ["exists", "idx&(maskVar|maskDeletable) == maskVar|maskDeletable"]
 def symbolFields : List (String × String) := [("desc", "String")]
 
+/-! the compiler's side of the names contract (Names.lean (R1)–(R4)), the template clone, and what the callees of the
+escape rows do with their argument -/
+def dynamicSites : List (String × String) := [("compiler.compile", "scope.dynamic = true"), ("compiledCallExpr.emitGetter", "for sc := e.c.scope; sc != nil; sc = sc.outer { if !foundVar && (sc.variable || sc.isFunction()) { foundVar = true if !sc.strict { sc.dynamic = true } } sc.dynLookup = true }"), ("compiler.compileWithStatement", "c.scope.dynamic = true")]
+def entrySites : List (String × String) := [("compiledFunctionLiteral.compile:enterFunc", "extensible=s.dynamic; funcType=e.typ; then if s.isDynamic() { enter1.names = s.makeNamesMap() }"), ("compiledFunctionLiteral.compile:enterFuncBody", "extensible=e.c.scope.dynamic; funcType=e.typ; then e.c.updateEnterBlock(&ef2.enterBlock)"), ("compiledFunctionLiteral.compile:enterFunc1", "extensible=s.dynamic; funcType=e.typ; then if s.isDynamic() { enter1.names = s.makeNamesMap() }"), ("compiledFunctionLiteral.compile:enterFuncBody", "extensible=e.c.scope.dynamic; funcType=e.typ; then e.c.updateEnterBlock(&ef2.enterBlock)"), ("compiledFunctionLiteral.compile:enterFuncBody", "extensible=e.c.scope.dynamic; funcType=e.typ; then e.c.updateEnterBlock(&ef2.enterBlock)"), ("compiledClassLiteral.compileFieldsAndStaticBlocks:enterFunc", "extensible=<unset>; funcType=funcClsInit; then if s.dynLookup { enter.names = s.makeNamesMap() }")]
+def body_hasStash : List String := ["if s.dynamic { return true }"]
+def body_isFunction : List String := ["return s.funcType != funcNone && !s.eval"]
+def body_isDynamic : List String := ["return s.dynLookup || s.dynamic"]
+def body_cloneTemplateValues : List String := ["dst := make([]Value, len(src))", "for i, v := range src { if p, ok := v.(*valueProperty); ok { cp := *p dst[i] = &cp } else { dst[i] = v } }", "return dst"]
+def body_setArrayValues : List String := ["a.values = values", "a.length = uint32(len(values))", "a.objCount = len(values)", "return a"]
+def calleeParamUse : List (String × String) := [("vm.checkBindFuncsGlobal#0", "read"), ("vm.checkBindLexGlobal#0", "read"), ("vm.checkBindVarsGlobal#0", "read"), ("vm.createGlobalFuncBindings#0", "read"), ("vm.createGlobalVarBindings#0", "read"), ("vm.getPrivateProp#2", "passed:obj.self.getPrivateEnv"), ("cloneTemplateValues#0", "read"), ("vm.fillPrivateNamesMap#1", "read"), ("vm.fillPrivateNamesMap#2", "read"), ("vm.push#0", "stored:vm.stack[vm.sp]"), ("vm.r.newRegExpp#1", "stored:o.source"), ("obj.self.getPrivateEnv#0", "read"), ("vm.setPrivateProp#2", "passed:obj.self.getPrivateEnv"), ("vm.throw#0", "passed:vm.handleThrow")]
+
 end GojaModel.C16.Expected
 
 namespace GojaModel.C16.Tie
@@ -123,5 +134,34 @@ theorem names_mechanism_text :
 theorem symbol_immutable :
     Generated.symbolFields = Expected.symbolFields ∧ Generated.symbolWrites = Expected.symbolWrites ∧
     (∀ w ∈ Generated.symbolWrites, w.2 = "init desc") := by decide
+
+/-- (R1) every site that sets `scope.dynamic`: the top-level scope, the `with` block, and the marking loop run when a
+direct eval call is compiled — textually the loop `markEval` transcribes -/
+theorem dynamic_sites : Generated.dynamicSites = Expected.dynamicSites := rfl
+
+/-- (R2)/(R4) every construction of a function-entry instruction: `extensible` and the names map come from the SAME
+scope (`s` for enterFunc / enterFunc1, `e.c.scope` for enterFuncBody), `funcType` is the function's type; the
+class-field initialiser (strict code) never sets `extensible` (seeded change C16-m2 breaks exactly this) -/
+theorem entry_sites : Generated.entrySites = Expected.entrySites := rfl
+
+/-- (R3) `hasStash` starts with `if s.dynamic { return true }`; isFunction / isDynamic as transcribed -/
+theorem scope_predicates_text :
+    Generated.body_hasStash = Expected.body_hasStash ∧ Generated.body_isFunction = Expected.body_isFunction ∧
+    Generated.body_isDynamic = Expected.body_isDynamic := ⟨rfl, rfl, rfl⟩
+
+/-- cloneTemplateValues makes a fresh backing array and a fresh copy of every slot; setArrayValues installs its argument
+(the clone) as the array's storage -/
+theorem clone_template_text :
+    Generated.body_cloneTemplateValues = Expected.body_cloneTemplateValues ∧
+    Generated.body_setArrayValues = Expected.body_setArrayValues := ⟨rfl, rfl⟩
+
+/-- what every callee of an escape row does with the escaped argument: the name slices (`funcs`/`vars`/`lets`/`consts`,
+`privateFields`/`privateMethods`) and `privateId.typ` are only read (ranged over, indexed, used as map key); the
+remaining ones store or pass on an immutable primitive (`vm.push`, `newRegExpp`'s source String, `vm.throw`) -/
+theorem callee_param_use : Generated.calleeParamUse = Expected.calleeParamUse := rfl
+
+theorem callee_param_use_slices_readonly :
+    ∀ u ∈ Generated.calleeParamUse, u.1 ∈ ["vm.push#0", "vm.r.newRegExpp#1", "vm.throw#0", "vm.getPrivateProp#2", "vm.setPrivateProp#2"] ∨ u.2 = "read" := by
+  decide
 
 end GojaModel.C16.Tie
